@@ -125,6 +125,42 @@ def init_instances(asserts):
     return out
 
 
+def spline_sampler(rnd):
+    """points for the sampling falsifier: a valid spline (sorted knots from lo to hi, positive derivatives) and the T3 searchsorted"""
+    nn = rnd.choice([3, 4, 5, 6])
+    a = rnd.choice([-2.0, -1.0, 0.0, 1.0, -3.5])
+    b = a + rnd.choice([1.0, 2.0, 3.0, 0.5])
+    def knots():
+        inner = sorted(a + (b - a) * rnd.uniform(0.05, 0.95) for _ in range(nn - 2))
+        # keep them distinct
+        pts = [a] + inner + [b]
+        for q in range(1, nn):
+            if pts[q] <= pts[q - 1]:
+                pts[q] = pts[q - 1] + 1e-3
+        pts[-1] = max(pts[-1], pts[-2] + 1e-3)
+        return pts
+    xs, ys = knots(), knots()
+    xs[0] = ys[0] = a
+    xs[-1] = ys[-1] = max(xs[-1], ys[-1])
+    hi_ = xs[-1]
+    ds = [rnd.choice([0.3, 1.0, 2.5, rnd.uniform(0.05, 4.0)]) for _ in range(nn)]
+    clampi = lambda arr: (lambda q: arr[min(max(int(q), 0), nn - 1)])  # noqa: E731  (JAX clamps out-of-range indices)
+    def ss(side):
+        def f(arr, n_, v):
+            vals = [arr(q) for q in range(int(n_))]
+            return sum(1 for t in vals if (t < v if side == "left" else t <= v))
+        return f
+    def point():
+        r = rnd.random()
+        if r < 0.2:
+            return rnd.choice(xs + ys)
+        if r < 0.75:
+            return rnd.uniform(a, hi_)
+        return rnd.choice([a - rnd.uniform(0.01, 3), hi_ + rnd.uniform(0.01, 3)])
+    return {n: nn, lo: a, hi: hi_, XP: clampi(xs), YP: clampi(ys), D: clampi(ds), z3.Real("x"): point(), z3.Real("y"): point(),
+            "fn:searchsorted_left": ss("left"), "fn:searchsorted_right": ss("right")}
+
+
 def make_self(it):
     cls = it.repo_class(QUAL)
     return cls, Obj(cls, knots=SV(n - 2), interval=(SV(lo), SV(hi)), softmax_adjust=SV(z3.Real("softmax_adjust")), min_derivative=SV(z3.Real("min_derivative")),
@@ -134,6 +170,7 @@ def make_self(it):
 # ---------------------------------------------------------------- M: single-bin lemmas over plain reals
 @family("spline/math", ["C01", "C02", "C07", "C18", "C04"])
 def spline_math(ctx):
+    ctx.default_sampler = spline_sampler
     xk, xk1, yk, yk1, dk, dk1, x, y = z3.Reals("xk xk1 yk yk1 dk dk1 x y")
     a6 = (xk, xk1, yk, yk1, dk, dk1)
     bin_ok = [xk < xk1, yk < yk1, dk > 0, dk1 > 0]
@@ -179,6 +216,7 @@ def spline_math(ctx):
 # ---------------------------------------------------------------- the real code against the paper's formulas
 @family("spline/RationalQuadraticSpline", ["C01", "C02", "C07", "C18", "C14", "C04"])
 def spline(ctx):
+    ctx.default_sampler = spline_sampler
     it = ctx.interp
     cls, self = make_self(it)
     x, y = z3.Reals("x y")
